@@ -11,6 +11,7 @@ import (
 	"context"
 	"errors"
 	"fmt"
+	"os"
 	"runtime"
 	"sort"
 	"strings"
@@ -232,7 +233,7 @@ type runner struct {
 
 type finding struct{ sig, detail string }
 
-const strategyTimeout = 400 * time.Millisecond
+const strategyTimeout = 120 * time.Millisecond
 
 func providersOf[T any](r *runner, mk func(n *node) T) map[string]T {
 	m := map[string]T{}
@@ -350,25 +351,26 @@ func (r *runner) services(ctx context.Context, w *c03world.World, sched schedule
 	return s, nil
 }
 
-// extraGoroutines: what legitimately exists at quiescence beyond the baseline.
+// extraGoroutines: what legitimately exists at quiescence beyond the baseline:
+// node doubles that never answer (held until the end of the run), one goroutine
+// per job of the real scheduler, and goroutines parked for ever on a channel send
+// inside vouch code (found in the stack dump; they are a finding at the end of
+// the run and must not stop the world from becoming quiescent meanwhile).
 func (r *runner) extraGoroutines() int {
 	n := int(r.pool.held.Load())
 	if r.rs != nil {
 		n += r.rs.goroutines()
 	}
-	// goroutines parked for ever on a channel send inside vouch code are found
-	// in the stack dump; they are a finding at the end of the run, and must not
-	// stop the world from becoming quiescent meanwhile
-	if runtime.NumGoroutine() > r.w.Baseline()+n+len(r.parked) && r.pool.inflight.Load() == 0 {
-		now := parkedSenders()
-		for id, fn := range now {
-			r.parked[id] = fn
-		}
-		for id := range r.parked {
-			if _, still := now[id]; !still {
-				delete(r.parked, id)
-			}
-		}
+	if r.w.Executing() > 0 || r.pool.inflight.Load() > 0 {
+		// a strategy call may be in progress: a sender blocked now may still be received from
+		return n + len(r.parked)
+	}
+	excess := runtime.NumGoroutine() - (r.w.Baseline() + n)
+	switch {
+	case excess <= 0:
+		r.parked = map[int]string{}
+	case excess != len(r.parked):
+		r.parked = parkedSenders()
 	}
 	return n + len(r.parked)
 }
@@ -462,7 +464,7 @@ func minOf(s []int) int {
 	return m
 }
 
-const growthSlack = 40
+const growthSlack = 10
 
 // judgeGrowth applies (i): the low-water mark of every container over the last
 // quarter of the run must not exceed its low-water mark over the second quarter
@@ -473,6 +475,9 @@ func (r *runner) judgeGrowth() {
 	for _, k := range sortedKeys(r.series) {
 		s := r.series[k]
 		n := len(s)
+		if os.Getenv("VERIF_C20_DEBUG") != "" {
+			fmt.Printf("SERIES %s %v\n", k, s)
+		}
 		if n < 40 {
 			continue
 		}
@@ -519,7 +524,16 @@ func (r *runner) run() error {
 	}
 	w := c03world.New(&c.P, pattern{c}, opt)
 	r.w = w
-	defer w.Stop()
+	released := false
+	defer func() {
+		if !released {
+			close(r.pool.release)
+		}
+		w.Stop()
+		if r.rs != nil {
+			r.rs.inner.CancelJobs(context.Background(), "")
+		}
+	}()
 	spe := c.P.SlotsPerEpoch
 	slotDur := w.SlotDuration()
 	if err := w.AdvanceTo(w.StartOfSlot(c.StartEpoch * spe)); err != nil {
@@ -586,7 +600,12 @@ func (r *runner) run() error {
 
 	// (ii) goroutines: release the doubles, stop the controller, and see what is left
 	close(r.pool.release)
+	released = true
 	w.Stop()
+	if r.rs != nil {
+		// jobs set up from head events live on the handler's background context
+		r.rs.inner.CancelJobs(context.Background(), "")
+	}
 	deadline := time.Now().Add(30 * time.Second)
 	last, stableSince := -1, time.Now()
 	for time.Now().Before(deadline) {
@@ -609,7 +628,7 @@ func (r *runner) run() error {
 		other := 0
 		for _, g := range goroutines() {
 			switch {
-			case g.fn != "" && (g.state == "chan send" || g.state == "chan receive"):
+			case strings.HasPrefix(g.top, vouchPath) && (g.state == "chan send" || g.state == "chan receive"):
 				by[g.fn+" ["+g.state+"]"]++
 			case g.fn != "":
 				other++
@@ -624,7 +643,13 @@ func (r *runner) run() error {
 		}
 		r.maxParked = total
 		if left > total+2 {
-			r.inconclusiveWhy = fmt.Sprintf("%d goroutines above the baseline after the run, %d parked on channels in vouch code, %d others in vouch code", left, total, other)
+			states := map[string]int{}
+			for _, g := range goroutines() {
+				if !(strings.HasPrefix(g.top, vouchPath) && (g.state == "chan send" || g.state == "chan receive")) {
+					states[g.fn+"|"+g.top+" ["+g.state+"]"]++
+				}
+			}
+			r.inconclusiveWhy = fmt.Sprintf("%d goroutines above the baseline after the run, %d parked on channels in vouch code, %d others in vouch code: %v", left, total, other, states)
 		}
 	}
 	return nil
